@@ -287,9 +287,8 @@ fn outcome3(ev: &cedar_policy_core::evaluator::Evaluator<'_>, p: &ast::Policy) -
 }
 
 pub fn run(tier: Tier, replay_file: Option<&str>) -> i32 {
-    if replay_file.is_some() {
-        eprintln!("C14 replay: re-run the check (cases are identified by fingerprint + policy text in the replay file)");
-        return 2;
+    if let Some(p) = replay_file {
+        return replay_by_rerun("C14", p, || run(Tier::Quick, None));
     }
     let ctx = Ctx::new("C14", tier);
     quiet_panics();
